@@ -996,7 +996,7 @@ func (g *gen) fnPiece(depth int) {
 			}
 		}
 	}()
-	switch g.intn("fnform", 0, 4) {
+	switch g.intn("fnform", 0, 5) {
 	case 0, 1: // (int, int) -> int, single tag
 		a, b := g.fresh("a"), g.fresh("a")
 		g.scope = append(g.scope, variable{name: a, k: kInt}, variable{name: b, k: kInt})
@@ -1010,6 +1010,13 @@ func (g *gen) fnPiece(depth int) {
 		g.popScope(sc)
 		g.tag("<%", "let "+name+" = fn("+a+", "+b+") { "+body+" }", "%>")
 		g.scope = append(g.scope, variable{name: name, tmpl: "\x00new", fn: &fnSig{params: []kind{kInt, kInt}, ret: kInt}})
+	case 5: // no parameters
+		g.feat("user_fn_no_params")
+		g.frames = 0
+		body := "return " + g.expr(kInt, 2, "return-value")
+		g.popScope(sc)
+		g.tag("<%", "let "+name+" = fn() { "+body+" }", "%>")
+		g.scope = append(g.scope, variable{name: name, tmpl: "\x00new", fn: &fnSig{params: nil, ret: kInt}})
 	case 2: // str -> str
 		a := g.fresh("a")
 		g.scope = append(g.scope, variable{name: a, k: kStr})
